@@ -73,12 +73,15 @@ pub enum Obs {
     AcceptThenClose,
     /// the complete state, after which the peer keeps the connection open
     ValidLinger,
+    /// a complete, well-shaped state whose numbers are unusual (negative / huge uptime)
+    ValidOddValues,
 }
 
-pub const OBS: [Obs; 6] = [Obs::Valid, Obs::Truncated, Obs::Invalid, Obs::Refused, Obs::AcceptThenClose, Obs::ValidLinger];
+pub const OBS: [Obs; 7] = [Obs::Valid, Obs::Truncated, Obs::Invalid, Obs::Refused, Obs::AcceptThenClose, Obs::ValidLinger, Obs::ValidOddValues];
 
 fn obs_mode(o: Obs, valid: &[u8]) -> ObsMode {
     match o {
+        Obs::ValidOddValues => unreachable!("resolved by the caller"),
         Obs::Valid => ObsMode::Valid(valid.to_vec()),
         Obs::Truncated => ObsMode::Truncated(valid.to_vec()),
         Obs::Invalid => ObsMode::Invalid,
@@ -262,25 +265,26 @@ pub struct Seq {
 }
 
 pub fn run(rep: &mut Report, tier: &str, seed: u64, shard: (u32, u32), replay: Option<&str>) {
-    rep.rule = "sequences of client behaviours (well-formed GET, close after 0 / partial / header-less bytes, 2048 and 4096 bytes without terminator, non-GET requests (POST, invalid-UTF-8 / long multi-byte / 900-octet ASCII method tokens, empty request line), split writes (7-octet pieces, one octet per segment, and two segments cut 1/2/3 octets into the CRLFCRLF terminator; each must be answered while the client waits), TCP reset before and after the request, close before reading the response) x observation-socket behaviours (valid JSON, truncated, invalid, refused, accept-then-close, valid JSON after which the peer keeps the connection open), each followed by a well-formed probe; every single behaviour x observation behaviour is enumerated, longer sequences (<= 4) are seeded samples (all pairs in thorough); the exporter is restarted after each wedging sequence; distinct = distinct sequences".into();
+    rep.rule = "sequences of client behaviours (well-formed GET, close after 0 / partial / header-less bytes, 2048 and 4096 bytes without terminator, non-GET requests (POST, invalid-UTF-8 / long multi-byte / 900-octet ASCII method tokens, empty request line), split writes (7-octet pieces, one octet per segment, and two segments cut 1/2/3 octets into the CRLFCRLF terminator; each must be answered while the client waits), TCP reset before and after the request, close before reading the response) x observation-socket behaviours (valid JSON, truncated, invalid, refused, accept-then-close, valid JSON after which the peer keeps the connection open, valid JSON with a negative / huge uptime), each followed by a well-formed probe; every single behaviour x observation behaviour is enumerated, longer sequences (<= 4) are seeded samples (all pairs in thorough); the exporter is restarted after each wedging sequence; distinct = distinct sequences".into();
     rep.require(&["sequence_run", "probe_ok", "probe_ok_error_status", "well_formed_request_answer_checked"]);
-    let valid_json: Vec<u8> = {
-        // a valid state: take it from a live default instance
+    // a valid state: the instance part taken from a live default instance, the document put
+    // together on the wire format (the contract between observer.rs and the exporter)
+    let state_json = |uptime: f64| -> Vec<u8> {
         let b = crate::drive::Build::new(0x42).build().expect("build");
         let inst = b.node.inst();
-        let st = statime_linux::metrics::exporter::ObservableState {
-            program: statime_linux::metrics::exporter::ProgramData { version: "t".into(), build_commit: "c".into(), build_commit_date: "d".into(), uptime_seconds: 1.0 },
-            instance: statime_linux::observer::ObservableInstanceState {
-                default_ds: inst.default_ds(),
-                current_ds: inst.current_ds(None),
-                parent_ds: inst.parent_ds(),
-                time_properties_ds: inst.time_properties_ds(),
-                path_trace_ds: inst.path_trace_ds(),
-                port_ds: vec![b.node.port_ref(0).port_ds()],
-            },
+        let instance = statime_linux::observer::ObservableInstanceState {
+            default_ds: inst.default_ds(),
+            current_ds: inst.current_ds(None),
+            parent_ds: inst.parent_ds(),
+            time_properties_ds: inst.time_properties_ds(),
+            path_trace_ds: inst.path_trace_ds(),
+            port_ds: vec![b.node.port_ref(0).port_ds()],
         };
-        serde_json::to_vec(&st).unwrap()
+        // serde_json writes 1e20 etc. as numbers the exporter's f64 field accepts
+        serde_json::to_vec(&json!({"program": {"version": "t", "build_commit": "c", "build_commit_date": "d", "uptime_seconds": uptime}, "instance": serde_json::to_value(&instance).unwrap()})).unwrap()
     };
+    let valid_json: Vec<u8> = state_json(1.0);
+    let odd_json: Vec<Vec<u8>> = [-1.0f64, -0.000001, 1e20, 1.7e308, 0.0].iter().map(|u| state_json(*u)).collect();
     let mut seqs: Vec<Seq> = vec![];
     if let Some(path) = replay {
         let v: serde_json::Value = serde_json::from_str(&std::fs::read_to_string(path).unwrap()).unwrap();
@@ -322,6 +326,7 @@ pub fn run(rep: &mut Report, tier: &str, seed: u64, shard: (u32, u32), replay: O
     let mut wedge_count: std::collections::HashMap<(Client, String), u32> = Default::default();
     let t_start = Instant::now();
     let max_secs = if tier == "thorough" { 1500.0 } else { 150.0 };
+    let mut odd_i = 0usize;
     for (si, seq) in seqs.iter().enumerate() {
         if si as u32 % shard.1 != shard.0 {
             continue;
@@ -337,7 +342,8 @@ pub fn run(rep: &mut Report, tier: &str, seed: u64, shard: (u32, u32), replay: O
         let replay_v = serde_json::to_value(seq).unwrap();
         let mut first_wedger: Option<Client> = None;
         for (c, o) in &seq.steps {
-            ctx.obs.set(obs_mode(*o, &valid_json));
+            odd_i += 1;
+            ctx.obs.set(if *o == Obs::ValidOddValues { ObsMode::Valid(odd_json[odd_i % odd_json.len()].clone()) } else { obs_mode(*o, &valid_json) });
             let answered = act(ctx.exp.port, *c);
             rep.ev(&format!("client_{c:?}"));
             if let Some(a) = answered {
@@ -356,8 +362,8 @@ pub fn run(rep: &mut Report, tier: &str, seed: u64, shard: (u32, u32), replay: O
                 first_wedger = Some(*c);
             }
         }
-        ctx.obs.set(obs_mode(seq.probe_obs, &valid_json));
-        let expect_data = seq.probe_obs == Obs::Valid || seq.probe_obs == Obs::ValidLinger;
+        ctx.obs.set(if seq.probe_obs == Obs::ValidOddValues { ObsMode::Valid(odd_json[odd_i % odd_json.len()].clone()) } else { obs_mode(seq.probe_obs, &valid_json) });
+        let expect_data = matches!(seq.probe_obs, Obs::Valid | Obs::ValidLinger | Obs::ValidOddValues);
         let res = probe(&mut ctx.exp, expect_data);
         rep.ev("sequence_run");
         rep.evaluations += 1;
